@@ -10,9 +10,11 @@ FUNCTIONS = ['uxarray.core.dataarray.UxDataArray.integrate@dims=n_face',
     'uxarray.core.dataarray.UxDataArray.integrate@dims=lev,n_edge',
     'uxarray.core.dataarray.UxDataArray.integrate@dims=n_face,lev',
     'uxarray.core.dataarray.UxDataArray.integrate@dims=time',
-    'uxarray.grid.grid.Grid.calculate_total_face_area']
+    'uxarray.grid.grid.Grid.calculate_total_face_area',
+    'uxarray.grid.area.get_all_face_area_from_coords@dim=2',
+    'uxarray.grid.area.get_all_face_area_from_coords@dim=3']
 STANDINS = ["integration"]
 ASSUMPTIONS = []
 EXPLANATION = ""
-LEVEL_TEXT = 'UxDataArray.integrate proved for nine concrete dims layouts with symbolic, independent element counts (n_node == n_face allowed): face-centred data -> weighted sum with the areas of the requested rule/order, dims/name/grid; everything else raises ValueError; values/linearity/Dataset variant bounded'
+LEVEL_TEXT = 'the area kernel behind integrate (get_all_face_area_from_coords) proved to integrate every face over exactly its own corners, whatever the sizes of the faces before it; UxDataArray.integrate proved for nine concrete dims layouts with symbolic, independent element counts (n_node == n_face allowed): face-centred data -> weighted sum with the areas of the requested rule/order, dims/name/grid; everything else raises ValueError; values/linearity/Dataset variant bounded'
 LEVEL_NOTE = "einsum('i,...i') and compute_face_areas as uninterpreted functions; dims tuples enumerated (9 layouts)"
